@@ -39,6 +39,7 @@ class SurfaceSubdivision(Logger):
     def __init__(self, mesh : SurfaceMesh, verbose:bool = False):
         super().__init__("SurfaceSubdivision", verbose)
         self.mesh = mesh
+        self._input = mesh
 
     def __enter__(self):
         self.mesh = RawMeshData(self.mesh)
@@ -47,7 +48,8 @@ class SurfaceSubdivision(Logger):
 
     def __exit__(self, exc_type, exc_val, exc_tb):
         self.mesh.prepare()
-        self.mesh = _instanciate_raw_mesh_data(self.mesh, 2)
+        self._input.__init__(self.mesh) # rebuild the mesh that was passed in: containers, connectivity, border caches
+        self.mesh = self._input
 
     @allowed_mesh_types(SurfaceMesh)
     def triangulate_face(self, face_id: int) :
@@ -239,6 +241,7 @@ class VolumeSubdivision(Logger):
     def __init__(self, mesh : VolumeMesh, verbose:bool=False):
         super().__init__("VolumeSubdivision", verbose=verbose)
         self.mesh = mesh
+        self._input = mesh
         self.conn = None # connectivity
 
     def __enter__(self):
@@ -252,7 +255,8 @@ class VolumeSubdivision(Logger):
 
     def __exit__(self, exc_type, exc_value, tb):
         self.mesh.prepare()
-        self.mesh = _instanciate_raw_mesh_data(self.mesh, 3)
+        self._input.__init__(self.mesh) # rebuild the mesh that was passed in: containers, connectivity, border caches
+        self.mesh = self._input
 
     def split_cell_as_fan(self, cell_id:int):
         """
